@@ -174,7 +174,7 @@ func TestC07(t *testing.T) {
 	r.Exhaustive(fmt.Sprintf("all 2^(n-1) compositions x 4 endings for %d complete frames of <= %d bytes", len(frames), maxLen))
 
 generated:
-	r.Rapid(t, "schedules", vf.N(12000, 2000000), func(t *rapid.T) {
+	r.Rapid(t, "schedules", vf.N(24000, 2000000), func(t *rapid.T) {
 		frame, kind := genCompleteFrame(t, rapid.Bool().Draw(t, "small"))
 		var before []byte
 		if rapid.IntRange(0, 2).Draw(t, "before") == 0 {
